@@ -112,7 +112,7 @@ def check_unit(ck: Check):
         pieces = prot.split(text)           # even = SQL text proper, odd = protected
         plain = pieces[0::2]
         well_formed = not any(re.search(r"""['"]|--|/\*|\$\$""", p_) for p_ in plain)
-        in_dom = well_formed and all("$" not in v and "\\" not in v for v in d.values())
+        in_dom = well_formed                      # (any values: since the one-pass fix a value is inserted as it is and never scanned again)
         for p_ in plain:
             toks = re.split(r"(\$\w+)", p_)
             in_dom = in_dom and all(("$" not in t) if i % 2 == 0 else True for i, t in enumerate(toks)) and \
